@@ -357,6 +357,7 @@ func (fox *Router) NewRoute(pattern string, handler HandlerFunc, opts ...RouteOp
 			return nil, err
 		}
 	}
+	simPoint(ptRouteOpts)
 	rte.hself, rte.hall = applyRouteMiddleware(rte.mws, handler)
 
 	return rte, nil
